@@ -17,11 +17,14 @@ import (
 	"fmt"
 	"io"
 	"net/netip"
+	"net"
 	"os"
 	"os/exec"
+	"runtime"
 	"strings"
 	"syscall"
 	"testing"
+	"testing/synctest"
 	"time"
 
 	"github.com/mdlayher/corerad/internal/config"
@@ -272,4 +275,69 @@ func TestVerifC07Crowd(t *testing.T) {
 	}
 	out.Emit(verifh.Case{ID: "crowd", Input: map[string]any{"kind": "crowd", "hosts": hosts, "Events": []map[string]any{{"Src": "fe80::7:0:0"}}},
 		Observed: map[string]any{"answered": len(answered), "fed_in": fed.String()}, Tags: []string{"stream:crowd"}, ImplViolation: strings.Join(viol, "; ")})
+}
+
+// TestVerifC05Redial (virtual clock): the connection dies (a transmission fails with ENETDOWN) while solicitations
+// from the unspecified address are in the scheduler's queue.  Whatever the advertiser kept about that queue, the
+// next incarnation -- a healthy connection -- sends its unsolicited multicast RAs for ever, like a fresh one (C05).
+func TestVerifC05Redial(t *testing.T) {
+	out := verifh.Open()
+	defer out.Close()
+	if !out.Wants("redial-with-queue") {
+		return
+	}
+	defer runtime.GOMAXPROCS(runtime.GOMAXPROCS(1))
+	var viol string
+	attempts := 24
+	for a := 0; a < attempts && viol == ""; a++ {
+		synctest.Test(t, func(t *testing.T) {
+			time.Sleep(time.Duration(a) * 137 * time.Millisecond)
+			cfg := config.Interface{Name: "v0", Advertise: true, MinInterval: 3 * time.Second, MaxInterval: 4 * time.Second,
+				HopLimit: 64, DefaultLifetime: 1800 * time.Second, Plugins: []plugin.Plugin{&plugin.LLA{}}}
+			v := newVAdvertiser(cfg, func() bool { return false })
+			c0 := v.cur()
+			writes := 0
+			c0.onWrite = func(w *vWrite) error {
+				writes++
+				if v.cur() == c0 && writes > 1+a%3 {
+					// ... and at this very moment another host solicits from the unspecified address
+					for k := 0; k < 1+a%2; k++ {
+						select {
+						case c0.readC <- rs("::"):
+						default:
+						}
+					}
+					return &net.OpError{Op: "write", Net: "ip6:ipv6-icmp", Err: os.NewSyscallError("sendmsg", syscall.ENETDOWN)}
+				}
+				return nil
+			}
+			cancel, done := v.run()
+			time.Sleep(time.Duration(3000+500*(a%5)) * time.Millisecond)
+			// a burst of solicitations from the unspecified address, back to back
+			for k := 0; k < 2+a%4; k++ {
+				select {
+				case c0.readC <- rs("::"):
+				default:
+				}
+			}
+			time.Sleep(90 * time.Second)
+			synctest.Wait()
+			cur := v.cur()
+			n := 0
+			for _, w := range cur.snapshot() {
+				if w.Dst.IsMulticast() && w.Err == nil {
+					n++
+				}
+			}
+			if cur == c0 {
+				// the failure did not lead to a new connection in this attempt: nothing to say
+			} else if n < 10 {
+				viol = fmt.Sprintf("attempt %d: after the connection died with solicitations from :: in the queue, the next (healthy) connection carried %d multicast RAs in about 85 s, want one every 3..4 s", a, n)
+			}
+			cancel()
+			<-done
+		})
+	}
+	out.Emit(verifh.Case{ID: "redial-with-queue", Input: map[string]any{"kind": "redial-with-queue", "attempts": attempts, "Min": 3e9},
+		Tags: []string{"stream:redial-with-queue"}, Observed: "ok", ImplViolation: viol})
 }
